@@ -689,6 +689,9 @@ func writeReplay(w *World, fo *funcOutcome, key, agg string, a *aggStatus, dir s
 
 // modelFor re-runs the script up to the failed obligation and asks for the values of the inputs.
 func modelFor(vc *VCResult, o *Obl, dir string, timeoutMs int) string {
+	if os.Getenv("GVC_FAST") != "" { // tools/seed_status.py: only the verdict matters there
+		return "(no model: marker not found) - model extraction skipped (GVC_FAST)"
+	}
 	marker := fmt.Sprintf(";;ENDOBL %d\n", o.Offset)
 	i := strings.Index(vc.Script, marker)
 	if i < 0 {
@@ -730,6 +733,9 @@ func modelFor(vc *VCResult, o *Obl, dir string, timeoutMs int) string {
 }
 
 func tryReplay(w *World, fo *funcOutcome, key, agg string, a *aggStatus, path string) bool {
+	if os.Getenv("GVC_FAST") != "" {
+		return false
+	}
 	return replayOnRealCode(w, fo, key, agg, a, path)
 }
 
